@@ -253,6 +253,13 @@ func (g *gen) hasRaw(raw string) bool {
 func (g *gen) hostileDecls() {
 	used := map[string]bool{}
 	k := 0
+	// every second program keeps these identifiers in a file that another code
+	// generator wrote (header "Code generated ... DO NOT EDIT."): still user code
+	decl := &g.s.ExtraDecl
+	if g.r.Intn(2) == 0 {
+		decl = &g.s.GeneratedDecl
+		g.feature("pkglevel-names-in-a-file-generated-by-another-tool")
+	}
 	for _, t := range g.s.Types {
 		if t.Name == "" || t.Pkg != "" || (t.Kind != KStruct && t.Kind != KNamedInt && t.Kind != KNamedStr && t.Kind != KIface) {
 			continue
@@ -264,13 +271,13 @@ func (g *gen) hostileDecls() {
 		used[lc] = true
 		switch k % 4 {
 		case 0:
-			g.s.ExtraDecl += fmt.Sprintf("var %s = %d\n", lc, k)
+			*decl += fmt.Sprintf("var %s = %d\n", lc, k)
 		case 1:
-			g.s.ExtraDecl += fmt.Sprintf("func %s() {}\n", lc)
+			*decl += fmt.Sprintf("func %s() {}\n", lc)
 		case 2:
-			g.s.ExtraDecl += fmt.Sprintf("const %s = %q\n", lc, lc)
+			*decl += fmt.Sprintf("const %s = %q\n", lc, lc)
 		case 3:
-			g.s.ExtraDecl += fmt.Sprintf("type %s struct{}\n", lc)
+			*decl += fmt.Sprintf("type %s struct{}\n", lc)
 		}
 		g.feature("pkglevel:" + lc)
 		k++
